@@ -796,7 +796,16 @@ class Manager:
         if code is not None:
             raise SystemExit(code)
 
-    def processTask(self, event, task, parent=None):  # noqa
+    def processTask(self, event, task, parent=None):
+        # events fired by a step of a handler of `event` are effects of
+        # `event`, like those fired by its plain handlers (see _fire)
+        handling, self._currently_handling = self._currently_handling, event
+        try:
+            self._processTask(event, task, parent)
+        finally:
+            self._currently_handling = handling
+
+    def _processTask(self, event, task, parent=None):  # noqa
         # TODO: C901: This has a high McCabe complexity score of 16.
         # TODO: Refactor this method.
 
@@ -853,6 +862,7 @@ class Manager:
             elif value is not None:
                 event.value.value = value
         except StopIteration:
+            self._currently_handling = None
             event.waitingHandlers -= 1
             self.unregisterTask((event, task, parent))
 
